@@ -215,7 +215,7 @@ def replay(art):
         tr.pre = None
         tr.status, tr.result = alg.outcome(terms.apply_op, fix, tr.inputs)
         trans_check(tr, st)
-    return [v['detail'] for v in st.viol] or None
+    return runner.fresh_details('C08', st) or None
 
 
 def _fix_term(term):
